@@ -180,3 +180,113 @@ Proof.
       replace (1 * 1 * Q) with Q by lia. replace (1 * Rm) with Rm by lia.
       rewrite (canon_int_fix _ IQ), (canon_int_fix _ IR). reflexivity.
 Qed.
+
+(* ---------- floor and ceiling from the truncated quotient (what math/big's QuoRem delivers) ---------- *)
+Lemma rem_sign_bound n d : d <> 0 ->
+  n = d * Z.quot n d + Z.rem n d /\ Z.abs (Z.rem n d) < Z.abs d.
+Proof. intros Hd. split; [apply Z.quot_rem'|apply Z.rem_bound_abs, Hd]. Qed.
+
+Lemma floor_of_quot n d : d <> 0 ->
+  n / d = if Z.rem n d =? 0 then Z.quot n d
+          else if Bool.eqb (0 <? Z.rem n d) (0 <? d) then Z.quot n d else Z.quot n d - 1.
+Proof.
+  intros Hd. destruct (rem_sign_bound n d Hd) as [E B].
+  remember (Z.quot n d) as q. remember (Z.rem n d) as r. clear Heqq Heqr.
+  destruct (Z.eqb_spec r 0) as [Hr|Hr].
+  - symmetry. apply (Z.div_unique n d q 0); lia.
+  - destruct (Z.ltb_spec 0 r), (Z.ltb_spec 0 d); cbn [Bool.eqb]; symmetry.
+    + apply (Z.div_unique n d q r); lia.
+    + apply (Z.div_unique n d (q - 1) (r + d)); lia.
+    + apply (Z.div_unique n d (q - 1) (r + d)); lia.
+    + apply (Z.div_unique n d q r); lia.
+Qed.
+
+Lemma ceil_of_quot n d : d <> 0 ->
+  - (- n / d) = if Z.rem n d =? 0 then Z.quot n d
+                else if Bool.eqb (0 <? Z.rem n d) (0 <? d) then Z.quot n d + 1 else Z.quot n d.
+Proof.
+  intros Hd. destruct (rem_sign_bound n d Hd) as [E B].
+  remember (Z.quot n d) as q. remember (Z.rem n d) as r. clear Heqq Heqr.
+  assert (G : forall Q r', (0 <= r' < d \/ d < r' <= 0) -> - n = d * (- Q) + r' -> - (- n / d) = Q).
+  { intros Q r' Hb He. rewrite <- (Z.div_unique (- n) d (- Q) r' Hb He). lia. }
+  destruct (Z.eqb_spec r 0) as [Hr|Hr].
+  - apply (G q 0); lia.
+  - destruct (Z.ltb_spec 0 r), (Z.ltb_spec 0 d); cbn [Bool.eqb].
+    + apply (G (q + 1) (d - r)); lia.
+    + apply (G q (- r)); lia.
+    + apply (G q (- r)); lia.
+    + apply (G (q + 1) (d - r)); lia.
+Qed.
+
+Lemma s_quot_opp_opp m n d : d <> 0 -> s_quot m (- n) (- d) = s_quot m n d.
+Proof.
+  intros Hd. destruct m; cbn [s_quot].
+  - apply Z.div_opp_opp, Hd.
+  - rewrite Z.div_opp_opp by exact Hd. reflexivity.
+  - apply Z.quot_opp_opp, Hd.
+  - rewrite Z.div_opp_opp by exact Hd.
+    replace (- n - n / d * - d) with (- (n - n / d * d)) by lia. rewrite !Z.abs_opp. reflexivity.
+Qed.
+
+(* round-half-even on non-negative number and positive divisor, as the bignum and ratio branches do it *)
+Definition round_abs_q (a b : Z) : Z :=
+  let q := Z.quot a b in
+  match Z.compare (2 * (a - q * b)) b with
+  | Eq => if Z.odd q then q + 1 else q
+  | Lt => q
+  | Gt => q + 1
+  end.
+Lemma round_abs_q_correct a b : 0 <= a -> 0 < b -> is_round a b (round_abs_q a b).
+Proof.
+  intros Ha Hb. unfold round_abs_q, is_round. rewrite Z.quot_div_nonneg by lia.
+  pose proof (Z.div_mod a b ltac:(lia)) as E. pose proof (Z.mod_pos_bound a b Hb) as Hm.
+  remember (a / b) as q. remember (a mod b) as r. clear Heqq Heqr.
+  replace (a - q * b) with r by lia.
+  destruct (Z.compare_spec (2 * r) b) as [H|H|H].
+  - rewrite <- Z.negb_even. destruct (Z.even q) eqn:Ev; cbn [negb].
+    + right. split; [replace (a - q * b) with r by lia; lia|exact Ev].
+    + right. rewrite even_succ_negb, Ev. split; [replace (a - (q + 1) * b) with (r - b) by lia; lia|reflexivity].
+  - left. replace (a - q * b) with r by lia. lia.
+  - left. replace (a - (q + 1) * b) with (r - b) by lia. lia.
+Qed.
+
+(* ---------- bignum branch: exact for every pair of integers (divisor not zero) ---------- *)
+Lemma round_signs n d Q : d <> 0 -> is_round (Z.abs n) (Z.abs d) Q ->
+  let sn := if n <? 0 then -1 else 1 in let sd := if d <? 0 then -1 else 1 in
+  s_quot Round n d = sn * sd * Q /\ n - s_quot Round n d * d = sn * (Z.abs n - Q * Z.abs d).
+Proof.
+  intros Hd HR sn sd.
+  assert (Hsn : sn = 1 \/ sn = -1) by (subst sn; destruct (n <? 0); auto).
+  assert (Hsd : sd = 1 \/ sd = -1) by (subst sd; destruct (d <? 0); auto).
+  assert (En : n = sn * Z.abs n) by (subst sn; destruct (Z.ltb_spec n 0); lia).
+  assert (Ed : d = sd * Z.abs d) by (subst sd; destruct (Z.ltb_spec d 0); lia).
+  destruct (is_round_scale _ _ Q sn sd Hsn Hsd HR) as [HR' Er'].
+  rewrite <- En, <- Ed in HR', Er'. rewrite (round_unique n d _ Hd HR'). split; [reflexivity|exact Er'].
+Qed.
+
+Lemma round_big_exact m n d : d <> 0 ->
+  round_big m n d = RVals (VBig (s_quot m n d)) (VBig (n - s_quot m n d * d)).
+Proof.
+  intros Hd. unfold round_big. destruct (Z.eqb_spec d 0) as [?|_]; [contradiction|]. cbv zeta.
+  destruct m; [cbn [s_quot]|cbn [s_quot]|cbn [s_quot]|].
+  - (* floor *)
+    rewrite (floor_of_quot n d Hd). pose proof (Z.quot_rem' n d) as E.
+    destruct (Z.eqb_spec (Z.rem n d) 0) as [Hr|Hr].
+    + do 2 f_equal. lia.
+    + destruct (Z.ltb_spec 0 (Z.rem n d)), (Z.ltb_spec 0 d); cbn [Bool.eqb]; do 2 f_equal; lia.
+  - (* ceiling *)
+    rewrite (ceil_of_quot n d Hd). pose proof (Z.quot_rem' n d) as E.
+    destruct (Z.eqb_spec (Z.rem n d) 0) as [Hr|Hr].
+    + do 2 f_equal. lia.
+    + destruct (Z.ltb_spec (Z.rem n d) 0), (Z.ltb_spec 0 (Z.rem n d)), (Z.ltb_spec 0 d); cbn [Bool.eqb]; try lia; do 2 f_equal; lia.
+  - (* truncate *)
+    pose proof (Z.quot_rem' n d) as E. do 2 f_equal. lia.
+  - (* round *)
+    assert (Ha : 0 <= Z.abs n) by lia. assert (Hb : 0 < Z.abs d) by lia.
+    pose proof (round_abs_q_correct _ _ Ha Hb) as HR.
+    destruct (round_signs n d _ Hd HR) as [EQ ER]. cbv zeta in EQ, ER.
+    rewrite ER, EQ. clear EQ ER HR.
+    unfold round_abs_q. rewrite (Z.mul_comm 2).
+    destruct (_ ?= _); [destruct (Z.odd _)| |];
+      destruct (Z.ltb_spec n 0), (Z.ltb_spec d 0), (Z.ltb_spec 0 d); try lia; do 2 f_equal; lia.
+Qed.
